@@ -11,8 +11,8 @@ summation orders), and Lanczos amplifies rounding by s / beta_j at every step, s
   * a member's columns are DETERMINED up to its first numerical breakdown
     p = min{ j : beta_j <= THETA * s }  (THETA = 1e-5) and as long as the accumulated amplification
     prod_{t<j} max(1, 0.1 s / beta_t) stays <= 1e4; determined columns / diag / subdiag entries are
-    compared with tolerance 1e-8 (entries of unit columns) resp. 1e-8 * s; beta_p itself (a rounding
-    residue) only absolutely, to 1e-9 * s;
+    compared with tolerance 1e-8 (entries of unit columns) resp. 1e-8 * s; beta_p itself is a rounding
+    residue and is not compared;
   * the exit decision after step j (beta_j > tol * beta_1 for some member) is DETERMINED when some
     member is above its threshold by more than ETA * s or all members are below it by more than
     ETA * s (ETA = 1e-9; members past their breakdown count as undetermined); the column counts and
@@ -532,7 +532,8 @@ def analyse_model(c, s, M):
             if bj <= THETA * st:
                 pb[b] = j
                 info["breakdown"][b] = j
-                info["own_small_at_breakdown"][b] = bool(thr - bj > eta)
+                # (an exactly vanishing residual fails the member's own test `0 > tol * beta_1`)
+                info["own_small_at_breakdown"][b] = bool(thr - bj > eta or bj == 0.0)
                 info["determined_cols"][b] = j
             else:
                 amp[b] *= max(1.0, 0.1 * st / bj)
@@ -614,6 +615,66 @@ def norm2(A):
     return float(np.abs(np.linalg.eigvalsh(A)).max()) if A.size else 0.0
 
 
+def attribute(c, A, s, real, k_cap, breakdown, own_small, spec_fails):
+    """attribute spec failures to modelled defects: a member whose Krylov space is numerically exhausted
+    at step bd (beta_bd <= THETA ||A||) but for which the loop went on; its first bd columns (the
+    determined part) must satisfy every statement.  Returns (clauses, extra failures); no clause =
+    not attributable."""
+    clauses, extra = set(), []
+    if "exc" in real or not real.get("Q") or real["Q"][0].ndim != 2:
+        return set(), extra
+    B = len(c["starts"])
+    kr = real["Q"][0].shape[1]
+    for b in sorted({b for (b, _, _) in spec_fails}):
+        bd = breakdown[b] if b < len(breakdown) else None
+        if bd is None or kr <= bd:
+            return set(), extra
+        Qp, Tp = real["Q"][b][:, :bd], real["T"][b][:bd, :bd]
+        pf, _ = oracle_member(c, A, s, c["starts"][b], Qp, Tp, k_cap, prefix=True)
+        if pf:
+            return set(), [(b, "prefix:" + f, d) for f, d in pf]
+        if B > 1 and own_small[b]:
+            # this member was determinately below its threshold: the loop went on because of the others
+            clauses.add("batch-member-breakdown")
+        elif bd == 1:
+            clauses.add("eigenvector-start-undetected")
+        else:
+            clauses.add("tol-below-rounding")
+    return clauses, extra
+
+
+def real_breakdown(c, s, real):
+    """breakdown steps read off the REAL output (sizes beyond the model's reach): first j with
+    T[j, j-1] <= THETA ||A||"""
+    st = s if s > 0 else 1.0
+    bds, small = [], []
+    for Q, T in zip(real["Q"], real["T"]):
+        k = T.shape[0]
+        bd, sm = None, False
+        beta = np.real(np.diag(T, -1)) if k > 1 else np.zeros(0)
+        bad = np.where(~np.all(np.isfinite(Q), axis=0))[0]
+        if bad.size:
+            # 0/0 after an exactly vanishing residual: the first NaN column follows the breakdown
+            # (NaN rows of the dense T hide beta_bd = 0 itself: 0 * NaN in Tridiagonal.to_dense)
+            bd = int(bad[0])
+            if bd >= 1:
+                sm = True      # beta_bd = 0 exactly fails the member's own test `0 > tol * beta_1`
+            else:
+                bd = None
+        else:
+            for j in range(1, k):
+                bj = beta[j - 1]
+                if not np.isfinite(bj):
+                    break
+                if bj <= THETA * st:
+                    bd = j
+                    sm = bool(c["tol"] * beta[0] - bj > ETA * st or bj == 0.0)
+                    break
+        bds.append(bd)
+        small.append(sm)
+    return bds, small
+
+
 def evaluate(c, real, ans):
     """three-way verdict for one case; an exception while judging malformed outputs is a spec failure"""
     try:
@@ -656,33 +717,10 @@ def evaluate_(c, real, ans):
     res["mismatch"] = mism
     res["stats"] = {"cmp": cinfo, "members": minfo_all, "model_iters": M["iters"],
                     "real_cols": real["Q"][0].shape[1] if real["Q"] and real["Q"][0].ndim == 2 else None}
-    # attribute spec failures to modelled defects: a member whose Krylov space is numerically exhausted
-    # at step bd (model: beta_bd <= THETA ||A||) but for which the loop went on; its first bd columns
-    # (the determined part) must satisfy every statement, and the model must agree on them
     if res["spec_fails"]:
-        B = len(c["starts"])
-        kr = res["stats"]["real_cols"]
-        attributable = kr is not None and "exc" not in real
-        for b in sorted({b for (b, _, _) in res["spec_fails"]}) if attributable else []:
-            bd = cinfo["breakdown"][b] if b < len(cinfo["breakdown"]) else None
-            if bd is None or kr <= bd:
-                attributable = False
-                break
-            Qp, Tp = real["Q"][b][:, :bd], real["T"][b][:bd, :bd]
-            pf, _ = oracle_member(c, A, s, c["starts"][b], Qp, Tp, k_cap, prefix=True)
-            if pf:
-                attributable = False
-                res["spec_fails"] += [(b, "prefix:" + f, d) for f, d in pf]
-                break
-            if B > 1 and cinfo["own_small_at_breakdown"][b]:
-                # this member was determinately below its threshold: the loop went on because of the others
-                res["clauses"].add("batch-member-breakdown")
-            elif bd == 1:
-                res["clauses"].add("eigenvector-start-undetected")
-            else:
-                res["clauses"].add("tol-below-rounding")
-        if not attributable:
-            res["clauses"] = set()
+        res["clauses"], extra = attribute(c, A, s, real, k_cap, cinfo["breakdown"], cinfo["own_small_at_breakdown"],
+                                          res["spec_fails"])
+        res["spec_fails"] += extra
     if res["spec_fails"]:
         res["status"] = "modelled-defect" if (res["clauses"] and not mism) else "spec-fail"
     elif mism:
@@ -723,21 +761,21 @@ def run(ctx):
     t_gate = ctx.wall()
     rng = random.Random(ctx.seed * 104729 + 14)
     known = dict(common.known_clauses(ctx.prop))
-    provisional = {k: v for k, v in PROVISIONAL_KNOWN.items() if k not in known}
+    provisional = {}   # decided: the three clauses are recorded in /verif/known_findings.json
     if ctx.replay:
         rp = json.load(open(ctx.replay))
         cases = [case_from_json(rp["case"])]
         cases[0]["id"] = 0
         big = []
     else:
-        N = 2500 if not ctx.thorough else 12000
+        N = 2500 if not ctx.thorough else 40000
         nmax = 12
         cases = [gen_case(rng, i, nmax) for i in range(N)]
         if ctx.thorough:
-            cases += [gen_case(rng, N + i, 40) for i in range(600)]
+            cases += [gen_case(rng, N + i, 40) for i in range(3000)]
         big = []
         if ctx.thorough:
-            big = [gen_case(rng, 10 ** 6 + i, 300) for i in range(150)]
+            big = [gen_case(rng, 10 ** 6 + i, 300) for i in range(400)]
     # model
     jcases = [case_to_json(c) for c in cases]
     t0 = time.time()
@@ -781,6 +819,8 @@ def run(ctx):
         if "eigvals" in real:
             dist["eigs_checked"] += 1
         dist["columns_compared"] += max(0, cm.get("compared_cols") or 0) * len(c["starts"])
+        dist["max_deviation_Q"] = max(dist.get("max_deviation_Q", 0.0), cm.get("maxdiff_Q", 0.0))
+        dist["max_deviation_T_rel"] = max(dist.get("max_deviation_T_rel", 0.0), cm.get("maxdiff_T", 0.0))
         dist["rank_tested_columns"] += sum(mi.get("rank_tested", 0) for mi in st.get("members", []))
         sg = signature(c, res)
         if sg not in sigs:
@@ -831,20 +871,41 @@ def run(ctx):
         A = c["A"]
         s = norm2(A)
         k_cap = min(c["max_iters"], c["n"])
-        fails = []
-        if "exc" in real:
-            fails = [(0, "raises", real["exc"])]
-        else:
-            for b, v in enumerate(c["starts"]):
-                f, _ = oracle_member(c, A, s, v, real["Q"][b], real["T"][b], k_cap)
-                # breakdown-related checks need the model's beta: only the unconditional statements here
-                fails += [(b, x, d) for x, d in f if x in ("shape", "column-count", "orthonormal", "first-column", "T-real",
-                                                            "T-tridiagonal", "T-symmetric", "T-offdiag-nonneg", "T=QhAQ", "AQ-QT")]
+        fails, clauses = [], set()
+        try:
+            if "exc" in real:
+                fails = [(0, "raises", real["exc"])]
+            else:
+                for b, v in enumerate(c["starts"]):
+                    f, _ = oracle_member(c, A, s, v, real["Q"][b], real["T"][b], k_cap)
+                    fails += [(b, x, d) for x, d in f]
+                if fails:
+                    bds, small = real_breakdown(c, s, real)
+                    clauses, extra = attribute(c, A, s, real, k_cap, bds, small, fails)
+                    fails += extra
+        except Exception as ex:  # noqa: BLE001
+            fails.append((0, "malformed-output", f"{type(ex).__name__}: {ex}"))
         big_done += 1
         dist["n"][c["n"]] = dist["n"].get(c["n"], 0) + 1
+        dist["big_cases"] = dist.get("big_cases", 0) + 1
         if fails:
-            res = {"status": "spec-fail", "spec_fails": fails, "mismatch": [], "clauses": set()}
-            common.violation(ctx, payload(c, res, real))
+            res = {"status": "modelled-defect" if clauses else "spec-fail", "spec_fails": fails, "mismatch": [],
+                   "clauses": clauses}
+            outcomes[res["status"]] += 1
+            unknown = [cl for cl in sorted(clauses) if cl not in known and cl not in provisional]
+            if not clauses or unknown:
+                if len(ctx.violations) < MAX_VIOLATION_LINES:
+                    common.violation(ctx, payload(c, res, real))
+                else:
+                    suppressed += 1
+            else:
+                for cl in sorted(clauses):
+                    dist["clauses"][cl] = dist["clauses"].get(cl, 0) + 1
+                    entry = known.get(cl) or provisional.get(cl)
+                    tag = "" if cl in known else " [PROVISIONAL, not yet in known_findings.json]"
+                    common.known_finding(ctx, cl, f"{entry['what']}{tag}")
+        else:
+            outcomes["ok"] += 1
     t_real = time.time() - t0
     if first_mismatch is not None:
         # real != model and no input of the stream violates the property statement on the real code
